@@ -3,6 +3,7 @@ package hx
 import (
 	"fmt"
 	"math"
+	"os"
 	"strconv"
 	"strings"
 
@@ -277,4 +278,39 @@ func GenTable(t *rapid.T, o TableOpt) Table {
 		tab.Cols = append(tab.Cols, c)
 	}
 	return tab
+}
+
+// BlockSizes are row counts around the sizes at which code tends to switch to blocked, unrolled or parallel
+// processing (powers of two and their neighbours, and counts that leave a remainder under 4, 8 and 1024).
+var BlockSizes = []int{1023, 1024, 1025, 2047, 2048, 2049, 3001, 4097, 8191, 16383, 16384, 16385, 16391, 20003, 32769, 65537}
+
+// GenBlockTable draws a table with one of the BlockSizes as row count, filled from one drawn seed: two int, two
+// float, a bool, a string and a declared enum column (names as GenTable gives them).
+func GenBlockTable(t *rapid.T) Table {
+	n := rapid.SampledFrom(BlockSizes[:8]).Draw(t, "blockrows")
+	if rapid.IntRange(0, 4).Draw(t, "bigblock") == 0 {
+		big := BlockSizes[8:13] // the costly ones less often; the largest only in the thorough tier
+		if os.Getenv("VERIF_TIER") == "thorough" {
+			big = BlockSizes[8:]
+		}
+		n = rapid.SampledFrom(big).Draw(t, "bigblockrows")
+	}
+	seed := SplitMix(rapid.Uint64().Draw(t, "blockfill"))
+	card := rapid.SampledFrom([]int{2, 5, 100, 100000}).Draw(t, "blockcard")
+	return Table{Cols: []Col{
+		FillCol(&seed, "i1", KInt, n, card, nil),
+		FillCol(&seed, "f1", KFloat, n, card, nil),
+		FillCol(&seed, "b1", KBool, n, card, nil),
+		FillCol(&seed, "s1", KString, n, card, nil),
+		FillCol(&seed, "e1", KEnum, n, card, []string{"c", "a", "b", "", "B"}),
+		FillCol(&seed, "i2", KInt, n, 7, nil),
+		FillCol(&seed, "f2", KFloat, n, 7, nil),
+	}}
+}
+
+// Rarely is true in about one of n cases. rapid's integer generators favour small values on purpose, so
+// "IntRange(0, n-1) == 0" is true far more often than 1/n; the drawn word is mixed first.
+func Rarely(t *rapid.T, n int, label string) bool {
+	s := SplitMix(rapid.Uint64().Draw(t, label))
+	return s.Next()%uint64(n) == 0
 }
